@@ -12,6 +12,7 @@ MODEL = {
         "me": {"type": "User"},
         "node": {"type": "Node", "args": {"kind": {"type": "Int", "default": 0}}},
         "pets": {"type": "[Pet]"},
+        "animals": {"type": "[Animal]"},
         "users": {"type": "[User!]"},
         "n": {"type": "Int!"},
         "echo": {"type": "Int", "args": {"x": {"type": "Int", "default": 7}, "r": {"type": "Role"}}},
@@ -25,8 +26,9 @@ MODEL = {
         "role": {"type": "Role"}, "pet": {"type": "Pet"}, "tags": {"type": "[String!]"},
         "score": {"type": "Int", "args": {"scale": {"type": "Int", "default": 1}}},
     }},
-    "Dog": {"kind": "object", "interfaces": ["Node"], "fields": {"id": {"type": "ID"}, "name": {"type": "String"}, "barks": {"type": "Boolean"}}},
-    "Cat": {"kind": "object", "interfaces": [], "fields": {"name": {"type": "String"}, "lives": {"type": "Int"}}},
+    "Animal": {"kind": "interface", "fields": {"name": {"type": "String"}, "owner": {"type": "User"}}},
+    "Dog": {"kind": "object", "interfaces": ["Node", "Animal"], "fields": {"id": {"type": "ID"}, "name": {"type": "String"}, "barks": {"type": "Boolean"}, "owner": {"type": "User"}}},
+    "Cat": {"kind": "object", "interfaces": ["Animal"], "fields": {"name": {"type": "String"}, "lives": {"type": "Int"}, "owner": {"type": "User"}}},
     "Pet": {"kind": "union", "members": ["Dog", "Cat"]},
     "Role": {"kind": "enum", "values": {"ADMIN": 1, "USER": "u"}},
     "Date": {"kind": "scalar", "serialize": lambda v: "D:%s" % (v,)},
@@ -48,7 +50,8 @@ def make_data(null_at=None, list_null=False):
     bob = {"__typename__": "User", "id": "u2", "name": "Bob", "age": 40, "friends": [], "best": None, "role": "u", "pet": tom, "tags": [], "base_score": 2}
     ann = {"__typename__": "User", "id": "u1", "name": "Ann", "age": 30, "friends": [bob, None] if list_null else [bob], "best": bob, "role": 1,
            "pet": rex, "tags": ["a", "b"], "base_score": 5}
-    root = {"me": ann, "pets": [rex, tom], "users": [ann, bob], "n": 4, "when": "2020", }
+    rex["owner"], tom["owner"] = ann, bob
+    root = {"me": ann, "pets": [rex, tom], "animals": [tom, rex] if null_at == "animals.reversed" else [rex, tom], "users": [ann, bob], "n": 4, "when": "2020", }
     if null_at == "me.name":
         ann["name"] = None
     elif null_at == "me.age":
